@@ -363,7 +363,7 @@ static void stress(const char *caseline, int rounds)
     pthread_t th[CTL_MAXT];
     s_rounds = rounds; s_case = caseline; s_bad = 0;
     sprintf(cur_replay, "stress %d", rounds);
-    alarm(60 + rounds / 2);
+    alarm(180 + rounds / 5);
     pthread_barrier_init(&bar, NULL, nthr);
     for(int i = 0; i < nthr; i++) pthread_create(&th[i], NULL, stress_worker, (void*)(intptr_t)i);
     for(int i = 0; i < nthr; i++) pthread_join(th[i], NULL);
